@@ -21,7 +21,7 @@ import (
 )
 
 func init() {
-	register(&Prop{ID: "C15", Module: "V.C15.Check", Gen: c15Gen, Quick: 110, Thorough: 2500, Shard: 8})
+	register(&Prop{ID: "C15", Module: "V.C15.Check", Gen: c15Gen, Quick: 90, Thorough: 2000, Shard: 8})
 }
 
 // ---------------------------------------------------------------- programs
